@@ -7,6 +7,7 @@ import (
 	"fmt"
 	"os"
 	"strconv"
+	"strings"
 	"testing"
 	"time"
 )
@@ -42,6 +43,7 @@ type WorkerReport struct {
 	Shapes     []string       `json:"shapes"`
 	NonTrivial []string       `json:"nontrivial_shapes"`
 	Unfinished int            `json:"unfinished"`
+	UnfinishedSeeds []string  `json:"unfinished_seeds,omitempty"`
 	Leaked     int            `json:"leaked"`
 	Violations []ReplayFile   `json:"violations,omitempty"`
 	Samples    []any          `json:"samples,omitempty"`
@@ -81,6 +83,9 @@ func TestSim(t *testing.T) {
 		EngineLog = os.Stderr
 	}
 	warmUp(t)
+	if os.Getenv("VERIF_TRACE_ENABLED") != "" {
+		TraceEnabled = os.Stderr
+	}
 	switch mode {
 	case "search":
 		searchMode(t)
@@ -95,10 +100,31 @@ func TestSim(t *testing.T) {
 		}
 		b, _ := json.Marshal(cfg)
 		fmt.Println(string(b))
+		DumpStacks = os.Getenv("VERIF_STACKS") != ""
 		res := RunOne(t, cfg, nil, false)
 		for _, e := range res.events {
 			fmt.Println(e.String())
 		}
+		if res.Stacks != "" {
+			maxB := 0
+			for _, g := range strings.Split(res.Stacks, "\n\n") {
+				if i := strings.Index(g, "synctest bubble "); i >= 0 {
+					var n int
+					fmt.Sscanf(g[i+16:], "%d", &n)
+					if n > maxB {
+						maxB = n
+					}
+				}
+			}
+			tag := fmt.Sprintf("synctest bubble %d]", maxB)
+			for _, g := range strings.Split(res.Stacks, "\n\n") {
+				if strings.Contains(g, tag) && strings.Contains(g, "conduitio/conduit/pkg") && !strings.Contains(g, "World).park") {
+					fmt.Println(g)
+					fmt.Println()
+				}
+			}
+		}
+		fmt.Printf("parked at end: %v\n", res.Parked)
 		fmt.Printf("steps=%d finished=%v leaked=%v notes=%v diverged=%q\n", res.Steps, res.Finished, res.Leaked, res.Notes, res.Diverged)
 		for _, v := range res.Violations {
 			fmt.Printf("VIOLATION %s %s: %s (seq %d)\n", v.Prop, v.Class, v.Msg, v.Seq)
@@ -127,11 +153,23 @@ func searchMode(t *testing.T) {
 	if progress != "" {
 		pf, _ = os.Create(progress)
 	}
+	var seedList []int64
+	for _, f := range strings.Split(os.Getenv("VERIF_SEEDS"), ",") {
+		if n, err := strconv.ParseInt(strings.TrimSpace(f), 10, 64); err == nil {
+			seedList = append(seedList, n)
+		}
+	}
+	if len(seedList) > 0 {
+		maxRuns = int64(len(seedList))
+	}
 	for i := int64(0); i < maxRuns; i++ {
 		if time.Since(startWall) > budget {
 			break
 		}
 		seed := base + worker + i*nworkers
+		if len(seedList) > 0 {
+			seed = seedList[i]
+		}
 		if rep.Runs == 0 {
 			rep.SeedFirst = seed
 		}
@@ -143,7 +181,14 @@ func searchMode(t *testing.T) {
 		if pf != nil {
 			fmt.Fprintf(pf, "RUN seed=%d\n", seed)
 		}
+		DumpStacks = seed == envInt("VERIF_STACK_SEED", -1)
 		res := RunOne(t, cfg, nil, false)
+		if DumpStacks {
+			fmt.Println(res.Stacks)
+			for _, e := range res.events {
+				fmt.Println(e.String())
+			}
+		}
 		rep.Runs++
 		rep.Engines[cfg.Engine]++
 		rep.SimMs += res.SimMs
@@ -157,6 +202,9 @@ func searchMode(t *testing.T) {
 		}
 		if !res.Finished {
 			rep.Unfinished++
+			if len(rep.UnfinishedSeeds) < 40 {
+				rep.UnfinishedSeeds = append(rep.UnfinishedSeeds, fmt.Sprintf("%d:%s:f%d:%v", seed, cfg.Engine, cfg.MaxFaults, res.Notes))
+			}
 		}
 		if res.Leaked {
 			rep.Leaked++
@@ -177,7 +225,7 @@ func searchMode(t *testing.T) {
 				break
 			}
 		}
-		if rep.Runs%50 == 0 {
+		if rep.Runs%50 == 0 && os.Getenv("VERIF_NOGC") == "" {
 			gcBetweenRuns()
 		}
 	}
@@ -234,6 +282,10 @@ func detMode(t *testing.T) {
 	base := envInt("VERIF_SEED_BASE", 1)
 	n := envInt("VERIF_MAXRUNS", 20)
 	lines := ""
+	// vary the process history: unrelated runs first (their results are discarded)
+	for i := int64(0); i < envInt("VERIF_DET_PREFIX", 0); i++ {
+		RunOne(t, GenConfig(7700000+envInt("VERIF_DET_PREFIX", 0)*1000+i, family), nil, false)
+	}
 	for i := int64(0); i < n; i++ {
 		cfg := GenConfig(base+i, family)
 		a := RunOne(t, cfg, nil, false)
